@@ -23,7 +23,7 @@ def run(ctx):
     L = LiveModel(ctx)
     S = StoreModel(ctx)
     A = AckModel(ctx)
-    ctx.floor("R07.1", "presence predicates over the store", len(S.presence_fns), 1)
+    ctx.floor("R07.1", "presence / readability predicates over the store", len(S.presence_fns) + len(S.readable_fns), 1)
     # ---- R07.1 / R07.2 ------------------------------------------------------------------------------
     n_api = 0
     for name, f in F.fns.items():
@@ -48,14 +48,14 @@ def run(ctx):
             if key is None:
                 ctx.bad("R07.1", "%s|command-key" % name, "the key carried by the queued put could not be determined", f.where(bb), fmt(cmd)[:200])
                 continue
-            edges = S.absence_edges(f, key)
+            edges = S.absence_edges(f, key, readable_too=True)
             ok = bool(edges) and bb not in f.reach([0], avoid_edges=edges)
             ctx.check(ok, "R07.1", "%s|absence-dominates-queueing" % name,
                       "a put is queued only after the presence predicate reported this key absent", f.where(bb), "key=%s" % fmt(key))
             ctx.check(key[0] == "param", "R07.1", "%s|same-key" % name, "the key tested is the key passed by the caller", f.where(bb))
         # true edge: immediate rejection without effects
         for b, expr, tt, ft in bool_branches(f):
-            if expr[0] == "call" and expr[1] in S.presence_fns:
+            if expr[0] == "call" and (expr[1] in S.presence_fns or expr[1] in S.readable_fns):
                 region = f.reach([tt])
                 eff = [x for x in region if f.term(x)["k"] == "call" and is_effectful(site_effects(F, f, x))]
                 vals = []
@@ -78,8 +78,13 @@ def run(ctx):
                               "the convenience put forwards its key and value unchanged", f.where(bb))
 
     # ---- R07.3 presence agrees with readability -------------------------------------------------------
+    for pname in sorted(S.readable_fns):
+        ctx.ok("R07.3", "%s|presence-honours-liveness" % pname, "the predicate deciding 'key already exists' is defined through the liveness-filtered lookup", F.fn(pname).where())
     for pname in sorted(S.presence_fns):
         f = F.fn(pname)
+        used = any(t.get("rpath") == pname for n, g in F.fns.items() if g.rec.get("reachable") and g.kind != "Closure" for b, t in g.calls())
+        if not used:
+            continue        # a physical-presence helper that no put API consults is not C07's subject
         ctx.touch(f)
         for g, bb, t in S.lookup_sites:
             if g is not f:
